@@ -726,6 +726,41 @@ class Inliner:
             mode, call = "return", s.value
         if call is None:
             return None
+        # X = list(G(..)) with G a generator helper: X = []; <body of G with `yield e` as `X.append(e)`>
+        if mode == "assign" and isinstance(s, ast.Assign) and len(s.targets) == 1 and isinstance(s.targets[0], ast.Name) and isinstance(call.func, ast.Name) and call.func.id == "list" and len(call.args) == 1 and not call.keywords and isinstance(call.args[0], ast.Call):
+            inner = call.args[0]
+            hg, recv_g = self.target(inner, self.cls)
+            tname = s.targets[0].id
+            if hg is not None and hg.ok and hg.is_gen and not hg.has_nested and tname not in _names(inner):
+                body_nodes = [n for st in hg.body for n in [st] + list(_walk_own_stmt(st))]
+                yields = [n for n in body_nodes if isinstance(n, (ast.Yield, ast.YieldFrom))]
+                stmt_yields = [n for n in body_nodes if isinstance(n, ast.Expr) and isinstance(n.value, ast.Yield) and n.value.value is not None]
+                rets = [n for n in body_nodes if isinstance(n, ast.Return)]
+                if yields and len(yields) == len(stmt_yields) and not rets and tname not in local_names(hg.node):
+                    inst = self.instantiate(hg, inner, recv_g, s)
+                    if inst is not None:
+                        prologue, body = inst
+
+                        class Y(ast.NodeTransformer):
+                            def visit_Expr(self, n):
+                                if isinstance(n.value, ast.Yield):
+                                    return ast.copy_location(ast.Expr(value=ast.Call(func=ast.Attribute(value=ast.Name(id=tname, ctx=ast.Load()), attr="append", ctx=ast.Load()), args=[n.value.value], keywords=[])), n)
+                                return n
+
+                            def visit_FunctionDef(self, n):
+                                return n
+
+                            visit_Lambda = visit_FunctionDef
+
+                        body = [Y().visit(x) for x in body]
+                        new = prologue + [ast.Assign(targets=[ast.Name(id=tname, ctx=ast.Store())], value=ast.List(elts=[], ctx=ast.Load()), lineno=s.lineno, col_offset=0)] + body
+                        for n in new:
+                            ast.fix_missing_locations(ast.copy_location(n, s) if not hasattr(n, "lineno") else n)
+                        _stamp(new, s, hg.name)
+                        self.caller_names |= _names(ast.Module(body=new, type_ignores=[]))
+                        self.changed = True
+                        self.report.append(("inlined-generator", hg.qual))
+                        return new
         h, recv = self.target(call, self.cls)
         if h is None:
             return None
